@@ -97,8 +97,8 @@ def S(trans, cols, vec=False, x0="none"):
     return {"op": "solve", "trans": trans, "rhs": {"cols": cols, "vec": bool(vec)}, "x0": x0}
 
 
-def U(how="new"):
-    return {"op": "update", "how": how}
+def U(how="new", inplace=False):
+    return {"op": "update", "how": how, "inplace": bool(inplace)}
 
 
 ZERO = {"t": "zero"}
@@ -194,7 +194,8 @@ def strategy(tier):
                               st.lists(col, min_size=1, max_size=3), st.sampled_from([False] * 9 + [True])))
     solve = st.builds(lambda t, r, x: {"op": "solve", "trans": t, "rhs": r, "x0": x},
                       st.sampled_from(["N", "N", "T", "H"]), rhs, st.sampled_from(["none"] * 5 + ["rand", "exact", "zero"]))
-    update = st.builds(U, st.sampled_from(["new", "new", "same", "scaled", "special"]))
+    # inplace: the new values are written into the matrix object handed over before (same object, same pattern/dtype)
+    update = st.builds(U, st.sampled_from(["new", "new", "same", "scaled", "special"]), st.sampled_from([False, False, True]))
     op = st.one_of(solve, solve, solve, solve, solve, solve, update)
 
     @st.composite
@@ -521,7 +522,18 @@ def check_case(case):
             Ad_new = new_matrix(op["how"], Ad)
             labels.append("update:" + op["how"])
             Ad = Ad_new
-            A = to_storage(Ad, storage)
+            A_new = to_storage(Ad, storage)
+            if op.get("inplace") and A is not None and A.dtype == A_new.dtype:
+                if storage == "dense":
+                    A[...] = A_new
+                    labels.append("update:inplace")
+                elif np.array_equal(A.indptr, A_new.indptr) and np.array_equal(A.indices, A_new.indices):
+                    A.data[...] = A_new.data
+                    labels.append("update:inplace")
+                else:
+                    A = A_new
+            else:
+                A = A_new
             # class contract: flags of the wrapper life stay true
             assert (not is_sym or (Ad == Ad.T).all()) and (not is_herm or (Ad == Ad.conj().T).all())
             try:
